@@ -142,7 +142,7 @@ class DetachedServer(ServerBase):
 
             elif msg == RuntimeMessage.CANCEL:
                 request = cast(uuid.UUID, payload)
-                self.handle_cancel_comp_task(request)
+                self.handle_cancel_comp_task(conn, request)
 
             else:
                 raise RuntimeError(f'Unexpected message type: {msg.name}')
@@ -245,10 +245,11 @@ class DetachedServer(ServerBase):
     def handle_disconnect(self, conn: Connection) -> None:
         """Disconnect a client connection from the runtime."""
         super().handle_disconnect(conn)
-        tasks = self.clients.pop(conn)
 
-        for task_id in tasks:
-            self.handle_cancel_comp_task(task_id)
+        for task_id in list(self.clients[conn]):
+            self.handle_cancel_comp_task(conn, task_id)
+
+        self.clients.pop(conn)
 
         tasks_to_pop = []
         for (task_id, (tid, other_conn)) in self.tasks.items():
@@ -320,6 +321,7 @@ class DetachedServer(ServerBase):
             # This task is unknown to the system
             m = (conn, RuntimeMessage.STATUS, CompilationStatus.UNKNOWN)
             self.outgoing.put(m)
+            return
 
         # Get the mailbox associated with this task.
         mailbox_id = self.tasks[request][0]
@@ -329,24 +331,30 @@ class DetachedServer(ServerBase):
         s = CompilationStatus.DONE if box.ready else CompilationStatus.RUNNING
         self.outgoing.put((conn, RuntimeMessage.STATUS, s))
 
-    def handle_cancel_comp_task(self, request: uuid.UUID) -> None:
+    def handle_cancel_comp_task(
+        self,
+        conn: Connection,
+        request: uuid.UUID,
+    ) -> None:
         """Cancel a compilation task in the system."""
-        _logger.info(f'Cancelling: {request}.')
+        if request in self.clients[conn] and request in self.tasks:
+            # Only a client's own unfinished or undelivered tasks can be
+            # cancelled; anything else is acknowledged and left alone.
+            _logger.info(f'Cancelling: {request}.')
 
-        # Remove task from server data
-        mailbox_id, client_conn = self.tasks[request]
-        self.mailboxes.pop(mailbox_id)
-        if client_conn in self.clients:
-            self.clients[client_conn].remove(request)
+            # Remove task from server data
+            mailbox_id = self.tasks[request][0]
+            self.mailboxes.pop(mailbox_id)
+            self.clients[conn].remove(request)
 
-        # Forward internal cancel messages
-        addr = RuntimeAddress(-1, mailbox_id, 0)
-        self.broadcast(RuntimeMessage.CANCEL, addr)
+            # Forward internal cancel messages
+            addr = RuntimeAddress(-1, mailbox_id, 0)
+            self.broadcast(RuntimeMessage.CANCEL, addr)
 
         # Acknowledge the client's cancel request
-        if not client_conn.closed:
+        if not conn.closed:
             # Check if it closed first since the client may have disconnected
-            self.outgoing.put((client_conn, RuntimeMessage.CANCEL, None))
+            self.outgoing.put((conn, RuntimeMessage.CANCEL, None))
 
     def handle_result(self, result: RuntimeResult) -> None:
         """Either store the result here or ship it to the destination worker."""
